@@ -1,7 +1,8 @@
 (* C19 — lazy loading: opening is O(1) and key-only operations never read values.
-   Lazy.v predicts the ReadAt calls of NewStore / GetItem / MinItem / MaxItem on an uncached store;
+   Lazy.v / LazyMut.v predict the ReadAt calls of NewStore / GetItem / MinItem / MaxItem / visits / SetItem /
+   Delete on an uncached store;
    the predictions are compared call by call with the implementation on every run. *)
-From GK Require Import Base Order Treap TreapSpec Codec CodecProofs Disk DiskProofs Lazy LazyProofs LazyVisit.
+From GK Require Import Base Order Treap TreapSpec Codec CodecProofs Disk DiskProofs Lazy LazyProofs LazyVisit LazyMut LazyMutProofs.
 
 (* opening a file that ends in a root record reads the 24-byte trailer and the root record, nothing else:
    two reads inside the root record, whatever the file holds below it *)
@@ -63,3 +64,59 @@ Theorem c19_visit_never_reads_values : forall cmp asc f t l target b fuel,
   forall q it, In (q, it) (item_locs t) -> rd_disjoint r (value_range q it).
 Proof. exact LazyVisit.visit_never_reads_values. Qed.
 Print Assumptions c19_visit_never_reads_values.
+
+(* ---------------------------------------------------------------------------------------------- *)
+(* SetItem and Delete (LazyMut.v: treap.go union / split / join and numInfo instrumented with every nodeLoc.read and
+   itemLoc.read(false) they perform; a record is read from the file the first time it is touched only) *)
+
+(* the instrumented functions are the algorithms of C01: same result trees *)
+Theorem c19_instrumented_is_same_algorithm : forall cmp fuel a b t s this that,
+  option_map fst (union_t cmp fuel a b) = union cmp fuel a b /\
+  fst (split_t cmp t s) = Treap.split cmp t s /\
+  fst (join_t this that) = join this that.
+Proof. intros. split; [apply LazyMutProofs.union_t_fst | split; [apply LazyMutProofs.split_t_fst | apply LazyMutProofs.join_t_fst]]. Qed.
+Print Assumptions c19_instrumented_is_same_algorithm.
+
+(* SetItem / Delete read node records, item headers and keys only ... *)
+Theorem c19_set_reads_nodes_and_keys : forall cmp t key val prio,
+  Forall (fun r => in_node t r \/ in_keypart t r) (set_treads cmp t key val prio).
+Proof. exact LazyMutProofs.set_reads_keyonly. Qed.
+Print Assumptions c19_set_reads_nodes_and_keys.
+Theorem c19_delete_reads_nodes_and_keys : forall cmp t k,
+  Forall (fun r => in_node t r \/ in_keypart t r) (del_treads cmp t k).
+Proof. exact LazyMutProofs.del_reads_keyonly. Qed.
+Print Assumptions c19_delete_reads_nodes_and_keys.
+
+(* ... hence never a byte of any value *)
+Theorem c19_set_never_reads_values : forall cmp f t key val prio,
+  rep f t -> records_disjoint t ->
+  forall r, In r (set_treads cmp t key val prio) ->
+  forall q it, In (q, it) (item_locs t) -> rd_disjoint r (value_range q it).
+Proof. exact LazyMutProofs.set_never_reads_values. Qed.
+Print Assumptions c19_set_never_reads_values.
+Theorem c19_delete_never_reads_values : forall cmp f t k,
+  rep f t -> records_disjoint t ->
+  forall r, In r (del_treads cmp t k) ->
+  forall q it, In (q, it) (item_locs t) -> rd_disjoint r (value_range q it).
+Proof. exact LazyMutProofs.del_never_reads_values. Qed.
+Print Assumptions c19_delete_never_reads_values.
+
+(* what SetItem reads does not depend on the value being written *)
+Theorem c19_set_reads_value_irrelevant : forall cmp t key v v' prio,
+  set_treads cmp t key (Some v) prio = set_treads cmp t key (Some v') prio.
+Proof. exact LazyMutProofs.set_reads_value_irrelevant. Qed.
+Print Assumptions c19_set_reads_value_irrelevant.
+
+(* the function the harness evaluates on the implementation's file (the tree as the independent decoder loads it)
+   is the one the theorems are about *)
+Theorem c19_mutation_reads_from_file : forall cmp f t b set key prio,
+  rep f t -> persisted t -> below t b -> (size t <= S (length f))%nat ->
+  mut_reads_file cmp f (root_loc t) b set key prio =
+  Some (if set then set_treads cmp t key (Some []) prio else del_treads cmp t key).
+Proof. exact LazyMutProofs.mut_reads_file_spec. Qed.
+Print Assumptions c19_mutation_reads_from_file.
+
+(* every record is read at most once per call *)
+Theorem c19_each_record_read_once : forall ts s, NoDup (touch_offs (fresh s ts)).
+Proof. exact LazyMutProofs.fresh_nodup. Qed.
+Print Assumptions c19_each_record_read_once.
